@@ -348,6 +348,25 @@ func main() {
 			tick += int64(ms)
 			continue
 		}
+		if name == "__expiretick" || (*replay == "" && i%700 == 699) {
+			// replay files only: one pass of the local_deletion expiry sweep on the live node's store, run
+			// under the apply timeout (the sweep writes through the engine's write batches)
+			done := make(chan int, 1)
+			go func() { n, _ := ln.st.VerifValidExpireTick(); done <- n }()
+			select {
+			case n := <-done:
+				oo.Printf("X%s\texpiretick=%d\n", id, n)
+			case <-time.After(applyTimeout):
+				oo.Printf("X%s\texpiretick=hung\n", id)
+				oo.Printf("END\tvectors=%d hung=X%s\n", i+1, id)
+				flushAll()
+				fmt.Fprintf(jf, "HUNG\tX%s\n", id)
+				os.Exit(4)
+			}
+			if name == "__expiretick" {
+				continue
+			}
+		}
 		argsH := hx.HL(v.args)
 		vo.Printf("%s\t%s\t%s\t%s\n", id, argsH, v.base, v.mut)
 		if sig := dangerClass(name, v.args); sig != "" && strings.Contains(","+*avoid+",", ","+sig+",") {
